@@ -107,6 +107,15 @@ fn check_cell(op: usize, req: usize, inst: usize) -> Vec<Viol> {
     if l1 != installed || l2 != installed || l3 != installed {
         out.push(viol("lookup-forms-agree", format!("installed {:?}: map {:?} closure {:?} pair {:?}", installed, l1, l2, l3)));
     }
+    // a lookup answers for exactly the name that is installed: not for a prefix, an extension, another case, nothing
+    for probe in ["pk", "p", "pkgx", "pkg-dev", "pkg:amd64", "PKG", "", "othe", "others"] {
+        let a = map.lookup_version(probe).is_some();
+        let b = closure.lookup_version(probe).is_some();
+        let c = pair.lookup_version(probe).is_some();
+        if a || b || c {
+            out.push(viol("lookup-forms-agree", format!("installed {:?}: lookup of {:?} answers (map {}, closure {}, pair {:?} {})", installed, probe, a, b, pair.0, c)));
+        }
+    }
     // lossless, on trees of every provenance
     for (how, rels) in ll_variants(&text) {
         let got = rels.satisfied_by(closure);
